@@ -385,6 +385,11 @@ class NumpyTheory:
             return self.mat_empty(args[0].items, st, node)
         return None
 
+    def np_np_abs(self, args, kw, st, node):
+        if type(args[0]).__name__ == 'VMat':
+            return self.mat_abs(args[0], st, node)
+        return None
+
     def np_np_tile(self, args, kw, st, node):
         return self.mat_tile(args[0], args[1], st, node)
 
